@@ -2,8 +2,8 @@
 # Each harness is a Go function in /verif/harness (package rapid) executed
 # symbolically by gosym against /repo's working tree.
 
-def H(name, bounds="", reach=(), native=True, thorough_only=False, quick=None, thorough=None, nodiff=False, opts=None, search=None, must_reach=None, unreach_job=None, race=False):
-    return {"name": name, "race": race, "bounds": bounds, "reach": list(reach), "native": native,
+def H(name, bounds="", reach=(), native=True, thorough_only=False, quick=None, thorough=None, nodiff=False, opts=None, search=None, must_reach=None, unreach_job=None, race=False, search_any=False):
+    return {"name": name, "race": race, "search_any": search_any, "bounds": bounds, "reach": list(reach), "native": native,
             "thorough_only": thorough_only, "quick": quick or {}, "thorough": thorough or {},
             "nodiff": nodiff, "opts": opts or {}, "search": search or [], "must_reach": must_reach or [], "unreach_job": unreach_job}
 
@@ -53,6 +53,7 @@ PROPS = {
             H("H_C12_monotone", "all 12 kinds, any recording, bias word / data word lowered to any smaller value (64-bit symbolic)", reach=["compared"], quick=Q, thorough=T),
             H("H_C12_shape", "all 12 kinds on the real PRNG-backed recording stream with arbitrary PRNG output: overflow draws record all-ones; for every kind the solver synthesises a non-overflow bias word that keeps the extreme value (escape witness)", reach=["prng-overflow", "prng-plain"], must_reach=["escape-" + k for k in ["Int8", "Int16", "Int32", "Int64", "Int", "Uint8", "Uint16", "Uint32", "Uint64", "Uint", "Byte", "Uintptr"]], quick=Q, thorough=T, nodiff=True, search=["seed"]),
             H("H_C12_minimizeExact", "real minimize(u, cond): all u < 2^6 (quick) / 2^9 (thorough), every threshold condition x>=theta, and the never-true condition", reach=["threshold", "nothing-accepted"], quick=Q, thorough=T),
+            H("H_C12_binSearchInduct", "the binary search of the real minimizer at full 64-bit width by one inductive step (loop cut-point): any best, any threshold, any loop state inside the invariant i <= threshold <= j == best; variant j-i; exit => best == threshold", reach=["iterated", "returned", "loop-back-edge"], quick=Q, thorough=T, search=["best", "theta"], search_any=True),
             H("H_C12_binSearchStep", "minimizer.accept and the first probe of binSearch for all 64-bit best/u and both condition outcomes", reach=["accepted", "rejected", "probe"], quick=Q, thorough=T),
             H("H_C12_offers", "real shrink() on a 3-word recording in 2 standalone groups, words from 10 representatives (0,1,5,6,7,1000,2^53-1,2^63,2^64-2,2^64-1), property reproduced by no candidate; then a second shrink() of a neighbouring test case in the same process", reach=["first-run", "second-run"], quick=Q, thorough=T),
             H("H_C12_slice", "SliceOf(Uint8()) recorded from any 7 (quick) / 10 (thorough) symbolic words, up to 2/3 elements, k in 0..2/3", reach=["local-minimum"], quick=Q, thorough=T),
@@ -137,6 +138,7 @@ PROPS = {
         "level": "model_checking",
         "harnesses": [
             H("H_C07_seedSchedule", "real findBug with symbolic 64-bit base seed, N=2 (quick) / 3 (thorough); property = data-dependent pass/skip/fail on the first PRNG word; then a second findBug run from the reported seed", reach=["failed", "no-failure"], quick=Q, thorough=T, search=["seed"]),
+            H("H_C09_findBugStep", "seed schedule step for every position in a run of any length, see C09", reach=["iterated", "failed"], quick=Q, thorough=T),
             H("H_C07_plumbing", "real checkTB with symbolic non-zero -rapid.seed, checks=1, nofailfile, shrinktime 0", reach=["failed", "not-failed"], quick=Q, thorough=T, search=["flagseed"]),
             H("H_C07_determinism", "two runs of the real doCheck (checks=2, shrinktime 0) from one symbolic seed, compared invocation by invocation", reach=["failed", "passed"], quick=Q, thorough=T, search=["seed"]),
         ],
@@ -168,6 +170,7 @@ PROPS = {
         "level": "model_checking",
         "harnesses": [
             H("H_C09_findBug", "real findBug, N in -1..2 (quick) / -1..3 (thorough), every pass/skip/fail outcome sequence (solver-chosen per invocation), deadline far away", reach=["failed", "no-failure", "enough", "budget"], quick=Q, thorough=T),
+            H("H_C09_findBugStep", "ONE iteration of the real findBug loop from an arbitrary loop state (loop cut-point): N any int in [-2, 2^32], valid/invalid any values inside the invariant, any outcome of the iteration, any 64-bit seed; invariant, exact counting, immediate return on failure, exit condition valid==N or invalid==10N, seed schedule step", reach=["iterated", "failed", "exited", "loop-back-edge"], quick=Q, thorough=T, search=["valid0", "invalid0", "checks"], search_any=True),
             H("H_C09_failfileFlaky", "real checkTB with a valid fail file present and a property whose outcome per invocation is chosen by the solver (so also 'fails on replay, passes on reproduction')", reach=["falsified", "failfile-falsified"], native=False, quick=Q, thorough=T),
             H("H_C09_verdict", "real checkTB with -rapid.checks in 1..2, -rapid.nofailfile, shrinktime 0, every outcome sequence", reach=["falsified", "passed", "only-generated"], quick=Q, thorough=T),
         ],
